@@ -6,6 +6,7 @@
 #include <etl/_type_traits/common_type.hpp>
 #include <etl/_type_traits/is_integral.hpp>
 #include <etl/_type_traits/is_same.hpp>
+#include <etl/_type_traits/make_unsigned.hpp>
 
 namespace etl {
 
@@ -23,7 +24,12 @@ template <typename M, typename N>
         return 0;
     }
     using R = common_type_t<M, N>;
-    return static_cast<R>((static_cast<R>(m) / etl::gcd(m, n)) * static_cast<R>(n));
+    using U = make_unsigned_t<R>;
+
+    // |m| and |n| in the unsigned common type
+    auto const a = m < 0 ? static_cast<U>(U(0) - static_cast<U>(static_cast<R>(m))) : static_cast<U>(static_cast<R>(m));
+    auto const b = n < 0 ? static_cast<U>(U(0) - static_cast<U>(static_cast<R>(n))) : static_cast<U>(static_cast<R>(n));
+    return static_cast<R>((a / etl::gcd(a, b)) * b);
 }
 
 } // namespace etl
